@@ -163,6 +163,7 @@ var c20Free = [][2]string{
 	{"A <- `a", "` 'c'\n"},
 	{"A <- 'a'", " 'c'\n"},
 	{"A <- [a]", " 'c'\n"},
+	{"A <- '1'", " \"2\"\n"},
 }
 
 const c20FreeAlphabet = "/*'\"aB()[]<-=:;{}?+!&.^\\i \n\r`"
